@@ -256,24 +256,29 @@ func GetOnlyExplainErr(errMsg string) string {
 	zhLen := len(ExplainZh)
 	enLen := len(ExplainEn)
 	endLen := len(ErrEndFlag)
-	splitLen := zhLen
 	nullLen := 1 // err msg [说明: xxx] 里包含一个空需要处理
 	for {
-		s := strings.Index(errMsg, ExplainZh)
+		// 按 ErrEndFlag 逐句处理, 在当前句里找说明标识(没有标识的句子直接跳过)
 		e := strings.Index(errMsg, ErrEndFlag) // 未发现的话, 为最后一句错误
-		if s == -1 || (e != -1 && s > e) {     // 说明为英文
-			s = strings.Index(errMsg, ExplainEn)
+		clause := errMsg
+		if e != -1 {
+			clause = errMsg[:e]
+		}
+		splitLen := zhLen
+		s := strings.Index(clause, ExplainZh)
+		if s == -1 { // 说明为英文
+			s = strings.Index(clause, ExplainEn)
 			splitLen = enLen
 		}
-		if s == -1 { // 异常
-			break
+		if s != -1 && len(clause) >= s+splitLen+nullLen {
+			if buf.Len() > 0 {
+				buf.WriteString(ErrEndFlag)
+			}
+			buf.WriteString(clause[s+splitLen+nullLen:])
 		}
 		if e == -1 {
-			buf.WriteString(errMsg[s+splitLen+nullLen:])
 			break
 		}
-		buf.WriteString(errMsg[s+splitLen+nullLen : e])
-		buf.WriteString(ErrEndFlag)
 		errMsg = errMsg[e+endLen:]
 	}
 	return buf.String()
